@@ -108,7 +108,9 @@ fn doc_bytes(a: Fmt, i: usize, doc_size: usize, variant: usize) -> Vec<u8> {
             0 => format!("{{\"id\":\"{}\",\"pad\":\"{}\",\"n\":[1,2.5,true,null]}}\n", id, pad).into_bytes(),
             _ => format!("[\"{}\", \"{}\", {{\"k\": 1}}] ", id, pad).into_bytes(),
         },
-        Fmt::Yaml => match variant % 3 {
+        Fmt::Yaml => match variant % 4 {
+            // every document carries its own directives (and must end with '...')
+            3 => format!("%YAML 1.2\n%TAG !e! tag:example.com,2000:app/\n---\nid: \"{}\"\npad: {}\nn: [1, 2.5, true, null]\n...\n", id, if pad.is_empty() { "\"\"".to_string() } else { pad }).into_bytes(),
             0 => format!("---\nid: \"{}\"\npad: {}\nn: [1, 2.5, true, null]\n", id, if pad.is_empty() { "\"\"".to_string() } else { pad }).into_bytes(),
             1 => format!("---\n- \"{}\"\n- \"{}\"\n- k: 1\n...\n", id, pad).into_bytes(),
             // flow sequences; the stream starts with '[' and no marker (not valid JSON: plain scalars)
@@ -294,8 +296,11 @@ pub fn run_stream(spec: &StreamSpec, variant: usize) -> Result<StreamResult, Str
 }
 
 pub fn check_stream(spec: &StreamSpec, rec: &mut Recorder) -> Result<(), String> {
-    let variant = spec.n % 3;
+    let variant = spec.n % 4;
     let r = run_stream(spec, variant)?;
+    if spec.a == Fmt::Yaml && variant == 3 {
+        rec.class("yaml_documents_with_directives");
+    }
     if spec.a == Fmt::Yaml && variant == 2 {
         rec.class("yaml_flow_first_document");
     }
@@ -390,7 +395,7 @@ impl Check for C05 {
         vec![Unit::gen("streams", 16, tier.pick(40, 300)), Unit::enumerate("growth", 9)]
     }
     fn required_classes(&self, _tier: Tier) -> Vec<&'static str> {
-        vec!["memory_bound_checked", "detected", "explicit", "packet:one_document_per_read", "packet:several_documents_per_read", "packet:fraction_of_a_document", "pair:json->yaml", "pair:yaml->json", "pair:msgpack->msgpack", "pair:yaml->yaml", "doc:small", "doc:large", "growth_checked", "yaml_flow_first_document"]
+        vec!["memory_bound_checked", "detected", "explicit", "packet:one_document_per_read", "packet:several_documents_per_read", "packet:fraction_of_a_document", "pair:json->yaml", "pair:yaml->json", "pair:msgpack->msgpack", "pair:yaml->yaml", "doc:small", "doc:large", "growth_checked", "yaml_flow_first_document", "yaml_documents_with_directives"]
     }
     fn run_unit(&self, unit: &Unit, shard: u32, seed: u64, tier: Tier, rec: &mut Recorder) {
         match unit.name {
@@ -404,14 +409,16 @@ impl Check for C05 {
                         let small = StreamSpec { a, to, detect, n, doc_size, packet_kind: 1, packet_param: 7 };
                         let large = StreamSpec { n: n * 10, ..small.clone() };
                         let cj = json!({"unit": "growth", "small": small.to_json(), "large": large.to_json()});
-                        let r1 = match run_stream(&small, 0) {
+                        // YAML sources: plain documents and documents with directives
+                        let variant = if a == Fmt::Yaml && doc_size == 40 { 3 } else { 0 };
+                        let r1 = match run_stream(&small, variant) {
                             Ok(r) => r,
                             Err(m) => {
                                 rec.fail(m, cj);
                                 return;
                             }
                         };
-                        let r2 = match run_stream(&large, 0) {
+                        let r2 = match run_stream(&large, variant) {
                             Ok(r) => r,
                             Err(m) => {
                                 rec.fail(m, cj);
